@@ -43,14 +43,20 @@ CtxOf(m, id)  == m.ctxs[CHOOSE i \in CtxIdx(m, id) : TRUE]
 CountSeq(s, x) == Cardinality({i \in 1..Len(s) : s[i] = x})
 
 \* C08: every provisioned buffer is in exactly one place
+\* (a memory that fails a call may keep the buffer it was handed - "stash": still the memory's, a place of its own)
+StashOf(m) == IF Has(m, "stash") THEN m.stash ELSE <<>>
 Conserved(m, prov, owned) ==
   \A t \in prov :
      CountSeq(m.free, t) + Cardinality({i \in 1..Len(m.ctxs) : m.ctxs[i].tag = t})
-       + (IF t \in owned THEN 1 ELSE 0) = 1
+       + CountSeq(StashOf(m), t) + (IF t \in owned THEN 1 ELSE 0) = 1
 
 \* buffers taken from / given to the memory during one call, from the memops log (C08 give-back)
 OpsTaken(ops) == {i \in 1..Len(ops) : ops[i].op \in {"new_pdu", "new_frag", "take_frag"} /\ ops[i].res = "ok"}
-OpsGiven(ops) == {i \in 1..Len(ops) : ops[i].op \in {"provision", "save_frag"} /\ ops[i].res = "ok"}
+\* save_frag takes ownership of the buffer whatever it answers; so does a provision that answers MemoryCorrupted
+OpsGiven(ops) == {i \in 1..Len(ops) : \/ ops[i].op = "provision" /\ ops[i].res \in {"ok", "corrupted"}
+                                      \/ ops[i].op = "save_frag"}
+\* memory calls that failed by injection (driver memfaults): the failing memory is legal, the receiver must cope
+InjOps(ops) == {i \in 1..Len(ops) : Has(ops[i], "inj")}
 GiveBackOk(ops, outTag) ==
   Cardinality(OpsTaken(ops)) = Cardinality(OpsGiven(ops)) + (IF outTag > 0 THEN 1 ELSE 0)
 
@@ -112,6 +118,9 @@ JudgeDecapQ(e, rx, q, crc) ==
       pre   == rx.mem
       post  == e.mem
       probe == Has(e, "probe")
+      injSet == InjOps(e.memops)
+      inj   == injSet # {}
+      injOp == IF inj THEN e.memops[CHOOSE i \in injSet : TRUE].op ELSE "-"
       \* probe packets also decide C16; for packets carrying extensions the delivery obligation is C13's
       PP(ps) == (IF probe THEN Append(ps, "C16") ELSE ps) \o (IF delim /\ Len(w.exts) > 0 THEN <<"C13">> ELSE <<>>)
                 \o (IF Has(e, "ilv") THEN <<"C07">> ELSE <<>>)      \* packets of an interleaving scenario
@@ -135,19 +144,19 @@ JudgeDecapQ(e, rx, q, crc) ==
       \* ---- complete
       cBufOk == pre.ok /\ Len(pre.free) > 0 /\ freeAllFit
       cNoBuf == pre.ok /\ (Len(pre.free) = 0 \/ ~freeAllFit)
-      cMust  == wf /\ kind = "complete" /\ ~zeroLab /\ resolvable /\ cBufOk
+      cMust  == wf /\ kind = "complete" /\ ~zeroLab /\ resolvable /\ cBufOk /\ ~inj
       \* ---- first
       tlCons == w.tl >= w.plen + PtypeLen + LtLen(w.lt)
       fBufOk == pre.ok /\ freeAllFit /\ (IF hasCtx THEN ctx.tag >= w.plen ELSE Len(pre.free) > 0)
       fNoBuf == pre.ok /\ ~hasCtx /\ Len(pre.free) = 0
-      fMust  == wf /\ kind = "first" /\ ~zeroLab /\ resolvable /\ tlCons /\ fBufOk
+      fMust  == wf /\ kind = "first" /\ ~zeroLab /\ resolvable /\ tlCons /\ fBufOk /\ ~inj
       \* ---- inter / end
       fits    == hasCtx /\ ctx.pdu_len + w.plen <= ctx.tag
       withinTl == gAgree /\ Len(g.arrived) + w.plen + PtypeLen + Len(g.first.lb) <= g.first.tl
-      iMust  == wf /\ kind = "inter" /\ gAgree /\ fits /\ withinTl
+      iMust  == wf /\ kind = "inter" /\ gAgree /\ fits /\ withinTl /\ ~inj
       A      == IF wf /\ kind = "end" THEN g.arrived \o Payload(p, w) ELSE <<>>
       verified == wf /\ kind = "end" /\ g.open /\ crc.need /\ crc.val = w.crc
-      eMust  == verified /\ gAgree /\ fits
+      eMust  == verified /\ gAgree /\ fits /\ ~inj
       unknownId == wf /\ kind \in {"inter", "end"} /\ pre.ok /\ ~hasCtx
       \* ---- lock-step with the sender
       isPend == rx.lock /\ rx.pend.valid /\ b = rx.pend.wire
@@ -164,7 +173,7 @@ JudgeDecapQ(e, rx, q, crc) ==
       \* of an aliasing id that was accepted, or that was rejected only because its payload
       \* does not fit the buffer it obtained by claiming the slot
       claims(i) == wf /\ kind = "first"
-                   /\ (r.t = "fragmented" \/ (r.t = "err" /\ w.plen > pre.ctxs[i].tag))
+                   /\ (r.t = "fragmented" \/ (r.t = "err" /\ w.plen > pre.ctxs[i].tag) \/ (inj /\ injOp = "save_frag"))
                    /\ (rx.slots = 0 \/ pre.ctxs[i].id % rx.slots = id % rx.slots)
       strayOk == \/ vanished = {}
                  \/ Cardinality(vanished) = 1 /\ \A i \in vanished : claims(i)
@@ -172,7 +181,7 @@ JudgeDecapQ(e, rx, q, crc) ==
       owned2 == IF outTag > 0 THEN rx.owned \cup {outTag} ELSE rx.owned
       \* ------------------------------------------------------------ verdicts
       verdicts ==
-           V(np, <<"C05">>, "Rx.NoPanic")
+           V(np, IF inj THEN <<"C05", "C08">> ELSE <<"C05">>, "Rx.NoPanic")
         \cup V(np => cons <= N, <<"C05">>, "Rx.ConsumedWithinBuffer")
         \cup V(np /\ N > 0 => cons >= MinI(2, N), <<"C05">>, "Rx.ConsumedProgress")
         \cup V(np /\ N >= 2 /\ AllZero(b) => (r.t = "padding" /\ cons = N), <<"C10">>, "Rx.PaddingConsumesRest")
@@ -221,7 +230,7 @@ JudgeDecapQ(e, rx, q, crc) ==
         \cup V(post.ok => Conserved(post, rx.prov, owned2), <<"C08">>, "Rx.Conservation")
         \cup V(np => GiveBackOk(e.memops, outTag), <<"C08">>, "Rx.GiveBack")
         \* interleavings (driver claims: all fragments of PDU e.of were fed in order on a separately tracked id)
-        \cup V(Has(e, "of") /\ wf /\ kind = "end" /\ g.open /\ A = PduBytes(e.of) =>
+        \cup V(Has(e, "of") /\ ~inj /\ wf /\ kind = "end" /\ g.open /\ A = PduBytes(e.of) =>
                   (r.t = "completed" /\ r.pdu = PduBytes(e.of)), <<"C07">>, "Rx.InterleavedDelivered")
         \* frames: same outcome as the same packet decapsulated alone by a twin receiver
         \cup V(Has(e, "alone") /\ np /\ e.alone.t # "panic" =>
@@ -231,7 +240,7 @@ JudgeDecapQ(e, rx, q, crc) ==
                   /\ (r.t = "completed" => r.pdu = e.alone.pdu), <<"C10">>, "Rx.TailIndependent")
         \* lock-step: the end packet of a train the real sender produced, fed in order into a receiver that
         \* kept every fragment, completes the PDU
-        \cup V(isPend /\ rx.pend.kind = "end" /\ wf /\ kind = "end" /\ gAgree /\ fits => (r.t = "completed" \/ ~np),
+        \cup V(isPend /\ rx.pend.kind = "end" /\ wf /\ kind = "end" /\ gAgree /\ fits /\ ~inj => (r.t = "completed" \/ ~np),
                IF Len(sess.exts) > 0 THEN Append(PP(<<"C02">>), "C13") ELSE PP(<<"C02">>), "Rx.LockStepEndDelivers")
         \* lock-step attribution and round trip
         \cup V(isPend /\ hasMeta /\ rx.pend.kind \in {"complete", "first"} => r.meta.label = rx.pend.intended, <<"C04">>, "Rx.Attribution")
@@ -265,6 +274,8 @@ JudgeDecapQ(e, rx, q, crc) ==
          \cup H(unknownId, "Rx.UnknownIdRejectedOwnLen")
          \cup H(pre.ok /\ post.ok /\ others # {}, "Rx.OtherContextsUntouched")
          \cup H(post.ok /\ rx.prov # {}, "Rx.Conservation") \cup H(np /\ Len(e.memops) > 0, "Rx.GiveBack")
+         \cup H(inj, "Rx.InjectedMemoryFailure") \cup H(inj /\ post.ok /\ Len(StashOf(post)) > 0, "Rx.Conservation.stash")
+         \cup H(inj /\ outTag > 0, "Rx.GiveBack.injected")
          \cup H(isPend /\ hasMeta /\ rx.pend.kind \in {"complete", "first"}, "Rx.Attribution")
          \cup H(isPend /\ hasMeta /\ rx.pend.kind \in {"inter", "end"}, "Rx.Attribution.frag")
          \cup H(isPend /\ r.t = "completed" /\ rx.pend.kind = "complete", "Rx.RoundTrip.complete")
@@ -291,8 +302,13 @@ JudgeDecapQ(e, rx, q, crc) ==
         \* traffic", C07 "packets of unknown fragment ids"), whether they are accepted or rejected
         ELSE IF wf /\ kind \in {"inter", "end"} THEN rx.adm
         ELSE rx.adm \cup {NoLabel}
+      \* a packet whose processing was cut short by an injected memory failure: take_frag / new_frag failed ->
+      \* nothing changed, the packet counts as lost before the receiver (C03 presupposes a working memory);
+      \* save_frag failed -> the memory swallowed the context, nothing of that id can be delivered any more
       newGhost ==
-        IF wf /\ kind = "first" /\ r.t = "fragmented"
+        IF inj /\ injOp \in {"take_frag", "new_frag", "new_pdu"} THEN rx.ghost
+        ELSE IF inj /\ injOp = "save_frag" /\ delim /\ kind # "complete" THEN (id :> NoGhost) @@ rx.ghost
+        ELSE IF wf /\ kind = "first" /\ r.t = "fragmented"
         THEN (id :> [open |-> TRUE, done |-> FALSE, arrived |-> Payload(p, w),
                      first |-> [label |-> r.meta.label, lt |-> w.lt, lb |-> w.label, ptype |-> w.ptype,
                                 tl |-> w.tl, exts |-> w.exts]]) @@ rx.ghost
@@ -308,7 +324,7 @@ JudgeDecapQ(e, rx, q, crc) ==
                         !.lock = rx.lock /\ (isPend \/ ~isStart), !.pend = IF isPend THEN NoPend ELSE rx.pend]
   IN  [ bad |-> verdicts, hits |-> hs, rx |-> rx2,
         cls |-> <<"decap", q.cls, kind, IF delim THEN w.why ELSE "-", IF delim THEN w.lt ELSE "-",
-                  IF r.t = "err" THEN r.e ELSE r.t, SizeClass(N), hasCtx, g.open, Len(pre.free) > 0>> ]
+                  IF r.t = "err" THEN r.e ELSE r.t, SizeClass(N), hasCtx, g.open, Len(pre.free) > 0, injOp>> ]
 
 JudgeDecap(e, rx, crc) == With(RxView(e.bytes, rx.mgr), LAMBDA q : JudgeDecapQ(e, rx, q, crc))
 
